@@ -384,7 +384,9 @@ class ModuleFinder:
             self.search_paths.append(path)
 
     def _extend_from_pth_files(self) -> None:
-        for path in self.search_paths:
+        # Like the `site` module, only read the `.pth` files of the initial search paths,
+        # not the ones lying in the directories they add (iterate on a copy: the list grows).
+        for path in list(self.search_paths):
             # Like the `site` module, handle the `.pth` files of a directory in alphabetical order,
             # not in the arbitrary order the operating system lists them.
             for item in sorted(self._contents(path)):
